@@ -2,8 +2,11 @@ package rules
 
 import (
 	"go/ast"
+	"go/constant"
 	"go/token"
 	"go/types"
+
+	"golang.org/x/tools/go/cfg"
 
 	"gnetlint/core"
 	"gnetlint/flow"
@@ -383,4 +386,147 @@ func runC01_19(c *core.Ctx) {
 				"Discard can report bytes as discarded on a path that neither advanced nor reset c.buffer: the bytes it claims to have dropped are delivered again")
 		})
 	}
+}
+
+func init() {
+	register(&core.Rule{ID: "C01.20", Prop: "C01", MinSites: 1, Applies: func(c core.Config) bool { return c.IsLinux() },
+		Desc: "every polled event is dispatched: in Poller.Polling (both epoll variants) each iteration of the loop over the returned events either invokes the registered callback (the Polling callback / the attachment's Callback) or, for the wake-up descriptor, sets the chores flag, before the loop moves on to the next event – an event that is dropped is input that is never read (or a close that is never noticed), since edge-triggered registrations do not repeat it",
+		Run:  runC01_20})
+	alias("C18", "C18.13", "C01.20", "an error or hang-up event that is not dispatched leaves a dead connection registered for ever")
+}
+
+func runC01_20(c *core.Ctx) {
+	a := pollerOf(c)
+	if a == nil {
+		return
+	}
+	f := a.polling
+	isDispatch := func(call *ast.CallExpr) bool {
+		if p0 := f.param(0); p0 != nil && flow.ObjOf(f.Info, call.Fun) == types.Object(p0) {
+			return true
+		}
+		if fv := flow.FieldOf(f.Info, call.Fun); fv != nil && nameOf(fv) == "Callback" {
+			return true
+		}
+		return false
+	}
+	setsFlag := func(n ast.Node) bool {
+		as, ok := n.(*ast.AssignStmt)
+		if !ok || len(as.Lhs) != len(as.Rhs) {
+			return false
+		}
+		for k, l := range as.Lhs {
+			if o, ok := flow.ObjOf(f.Info, l).(*types.Var); ok && !o.IsField() {
+				if bt, ok := o.Type().Underlying().(*types.Basic); ok && bt.Kind() == types.Bool {
+					if cv := flow.ConstOf(f.Info, as.Rhs[k]); cv != nil && constant.BoolVal(cv) {
+						return true
+					}
+				}
+			}
+		}
+		return false
+	}
+	// the loop over the events: the innermost loop whose body contains a dispatch
+	var loop ast.Stmt
+	var body *ast.BlockStmt
+	ast.Inspect(f.Decl.Body, func(n ast.Node) bool {
+		var b *ast.BlockStmt
+		switch y := n.(type) {
+		case *ast.ForStmt:
+			b = y.Body
+		case *ast.RangeStmt:
+			b = y.Body
+		}
+		if b != nil {
+			has := false
+			for _, call := range callsIn(b, false) {
+				if isDispatch(call) {
+					has = true
+				}
+			}
+			if has {
+				loop, body = n.(ast.Stmt), b // inner loops are visited later and win
+			}
+		}
+		return true
+	})
+	if loop == nil {
+		c.Violate(f.Name, "dispatch loop", f.Decl.Pos(), "Polling has no loop that invokes the registered callback: no polled event is ever dispatched")
+		return
+	}
+	const fDone = 1
+	g := f.Graph()
+	p := &flow.Problem{Must: true}
+	p.Node = func(b *flow.Block, i int, n ast.Node, in uint64) uint64 {
+		for _, call := range flow.Calls(n) {
+			if isDispatch(call) {
+				in |= fDone
+			}
+		}
+		if setsFlag(n) {
+			in |= fDone
+		}
+		return in
+	}
+	p.Edge = func(e *flow.Edge, in uint64) uint64 {
+		if e.To.Stmt == loop && (e.To.Kind == cfg.KindForBody || e.To.Kind == cfg.KindRangeBody) {
+			return 0 // a new event: nothing done for it yet
+		}
+		return in
+	}
+	sol := g.Solve(p)
+	_ = body
+	// the blocks of one iteration: reachable from the loop's body block without going through the loop's own head/post/done blocks
+	isLoopOwn := func(b *flow.Block) bool {
+		if b.Stmt != loop {
+			return false
+		}
+		switch b.Kind {
+		case cfg.KindForLoop, cfg.KindForPost, cfg.KindForDone, cfg.KindRangeLoop, cfg.KindRangeDone:
+			return true
+		}
+		return false
+	}
+	inIter := map[*flow.Block]bool{}
+	var work []*flow.Block
+	for _, b := range g.Blocks {
+		if b.Stmt == loop && (b.Kind == cfg.KindForBody || b.Kind == cfg.KindRangeBody) {
+			inIter[b] = true
+			work = append(work, b)
+		}
+	}
+	for len(work) > 0 {
+		b := work[len(work)-1]
+		work = work[:len(work)-1]
+		for _, e := range b.Succs {
+			if !inIter[e.To] && !isLoopOwn(e.To) {
+				inIter[e.To] = true
+				work = append(work, e.To)
+			}
+		}
+	}
+	k, good := 0, true
+	for _, b := range g.Blocks {
+		if !sol.Seen[b.ID] || !inIter[b] {
+			continue
+		}
+		for _, e := range b.Succs {
+			if e.To.Stmt == loop && (e.To.Kind == cfg.KindForPost || e.To.Kind == cfg.KindRangeLoop || e.To.Kind == cfg.KindForLoop) {
+				k++
+				out := sol.Out(b)
+				if p.Edge != nil {
+					out = p.Edge(e, out)
+				}
+				if out&fDone == 0 {
+					good = false
+				}
+			}
+		}
+	}
+	if k == 0 {
+		c.Undecided(f.Name, "dispatch loop", loop.Pos(), "no edge from the event loop's body back to its head found; loop form not recognised")
+		return
+	}
+	c.Check(good, f.Name, "every event dispatched", loop.Pos(), "callback invoked or chores flag set on every path through an iteration",
+		"an iteration of Polling's loop over the returned events can finish without invoking the callback (or setting the chores flag for the wake-up descriptor): the event is dropped – under edge-triggered registration the input it announced is never read and a hang-up never noticed")
 }
